@@ -4,7 +4,7 @@
 2. run the given checks (default: all 20, quick tier) against the patched scratch copy via EQL_SRC/VERIF_OUT.
 Writes <seed_dir>/eval.json and removes the worktree."""
 import json, os, subprocess, sys, tempfile, shutil, time
-seed, target = sys.argv[1], sys.argv[2]
+seed, target = os.path.abspath(sys.argv[1]), sys.argv[2]
 checks = sys.argv[3:] or ["C%02d" % i for i in range(1, 21)]
 patch = os.path.join(seed, "patch.diff")
 demo = os.path.join(seed, "demo.py")
